@@ -69,7 +69,7 @@ class CenteredGeneratePerturbationsWithDesignSpace(Contract):
         d = _ds(c)
         j = z3.Int("j!dl")
         t = N2.el(d.ub, N2.el(d.ni, j)) - N2.el(d.lb, N2.el(d.ni, j))
-        return [("t != 0 => t / t == 1 at t = ub - lb of the normalised components", z3.ForAll([j], z3.Implies(t != 0, t / t == 1), patterns=[N2.el(d.ni, j)]))]
+        return [("t != 0 => t / t == 1 at t = ub - lb of the normalised components", z3.ForAll([j], z3.Implies(t != 0, z3.And(t / t == 1, z3.RealVal(0) / t == 0)), patterns=[N2.el(d.ni, j)]))]
 
     def ensures(self, c):
         from pyvc.state import Undecided
@@ -122,4 +122,4 @@ class DivisionLemma(Contract):
 
     def lemmas(self):
         t = z3.Real("t")
-        return [("t != 0 => t / t == 1", z3.Implies(t != 0, t / t == 1))]
+        return [("t != 0 => t / t == 1", z3.Implies(t != 0, t / t == 1)), ("t != 0 => 0 / t == 0", z3.Implies(t != 0, z3.RealVal(0) / t == 0))]
